@@ -4,6 +4,7 @@ import Ruint.Lemmas.GenInvRing
 import Ruint.Gen.InvRingConsts
 import Ruint.Lemmas.GenUintModMul
 import Ruint.Lemmas.GenBinOps
+import Ruint.Lemmas.GenFolds
 
 /-!
 # C02 — multiplication is exact: wrapping, overflow flag, widening product, ring inverse
@@ -235,5 +236,26 @@ theorem gen_mul_operator_shapes (bits L : Nat) (a b : List Nat) :
       ∧ Ruint.Gen.op_mul_ref_val bits L a b = Ruint.Gen.uint_wrapping_mul bits L a b
       ∧ Ruint.Gen.op_mul_ref_ref bits L a b = Ruint.Gen.uint_wrapping_mul bits L a b :=
   Ruint.GenBinOps.mul_shapes bits L a b
+
+/-- iterator `Product` (by value and by reference: the `BITS == 0` shortcut, `iter.fold(Self::ONE, Self::wrapping_mul)`) as
+    regenerated from `src/mul.rs` equals the model of `product_spec` on every list of canonical values. -/
+theorem gen_product_eq (bits : ℕ) (hN : nlimbs bits < 2 ^ 64) (l : List (List ℕ)) (hl : ∀ x ∈ l, Canon bits x) :
+    Ruint.Gen.uint_product bits (nlimbs bits) l = product bits l
+    ∧ Ruint.Gen.uint_product_ref bits (nlimbs bits) l = product bits l := by
+  have key : (if (bits == 0) = true then List.replicate (nlimbs bits) 0
+      else List.foldl (fun acc_ x_ => Ruint.Gen.uint_wrapping_mul bits (nlimbs bits) acc_ x_)
+        (Ruint.toLimbs (nlimbs bits) (1 % 2 ^ bits)) l) = product bits l := by
+    unfold product
+    by_cases h0 : bits = 0
+    · subst h0; rfl
+    · have hb : (bits == 0) = false := by simpa using h0
+      have h1 : 1 % 2 ^ bits = 1 := Nat.mod_eq_of_lt (Nat.one_lt_two_pow h0)
+      simp only [hb, h0, if_false, Bool.false_eq_true, h1]
+      have hone : Canon bits (one bits) := Ruint.canon_toLimbs bits 1 (Nat.one_lt_two_pow h0)
+      exact Ruint.GenFolds.foldl_congr_canon (Canon bits) _ _
+        (fun a x ha hx => (wrapping_mul_spec bits a x ha hx).1)
+        (fun a x ha hx => Ruint.GenMulWrap.wrapping_mul_eq bits hN a x ha.1 hx.1)
+        l (one bits) hone hl
+  exact ⟨key, key⟩
 
 end Ruint.C02
